@@ -293,7 +293,9 @@ PROPS["C12"] = dict(
          "structural; and the crate's own panic lints (unwrap/panic) hold for all library code (nothing else ever runs clippy). "
          "R12c: each of the ~250 index / slice / positional Vec-String operations of the crate is in bounds by a fact the checker derives "
          "from the MIR (comparison with len() on a dominating edge, range/enumerate iteration variable, non-empty test, find position) or "
-         "by a hand-audited entry with its reason.",
+         "by a hand-audited entry with its reason. R12d: every call that enters a memoising graph search (recursive function inserting "
+         "into a `&mut HashSet` it carries; 17 with wrappers) passes a set created or cleared right before the call, inside the same "
+         "loop / per-element closure -- the cycle filter of the type index depends on it.",
     note="Guard presence is per component, not per cycle. Arithmetic panics and the time bound of guarded fixpoints are not decided; "
          "audited entries are blind to later edits of the audited function's logic. Trusted: clippy, the guard and carrier tables in "
          "rules/c12.py, tables/panic_audit.json.")
